@@ -126,7 +126,6 @@ Definition extract_parts (from : bytes) : bytes * bytes :=
 
 (* strconv.Atoi (modelled, not verified): optional sign, decimal digits; the value and whether
    it was accepted; out of range = clamped value and not accepted *)
-Definition is_digit (b : byte) : bool := ((48 <=? b2n b) && (b2n b <=? 57))%N.
 Definition atoi (s : bytes) : Z * bool :=
   let '(neg, ds) := match s with
                     | b :: s' => if beq b MINUS then (true, s') else if beq b PLUS then (false, s') else (false, s)
@@ -135,7 +134,7 @@ Definition atoi (s : bytes) : Z * bool :=
   match ds with
   | [] => (0, false)
   | _ :: _ =>
-      if forallb is_digit ds then
+      if forallb is_digit_b ds then
         let v := digits_val ds 0 in
         if neg then (if - v <? int64_min then (int64_min, false) else (- v, true))
         else (if int64_max <? v then (int64_max, false) else (v, true))
